@@ -55,7 +55,7 @@ func poolMain() {
 	for _, p := range pool {
 		line := fmt.Sprintf("%-90q %-7s", p.Src, p.Env)
 		for _, be := range backends {
-			e := buildEngine(EngineSpec{be, true, 0}, func() *recorder { return rec })
+			e := buildEngine(EngineSpec{be, true, 0, false}, func() *recorder { return rec })
 			res := func() (s string) {
 				defer func() {
 					if r := recover(); r != nil {
